@@ -457,3 +457,138 @@ func TestVerifC20Names(t *testing.T) {
 	}
 	en.Done(true)
 }
+
+// ---- several instances in use at the same time (two RPCs in flight, as the RPC library's pools allow) ----
+
+type vfC20Concurrent struct {
+	Enc      int      `json:"enc"`
+	Warmups  []int    `json:"warmups"`  // per instance: how many messages it handled (and was recycled after) before
+	Data     []vfData `json:"data"`     // per instance: the message it handles now
+	Schedule []int    `json:"schedule"` // which instance makes the next step (cyclic)
+	Step     int      `json:"step"`     // bytes per Read / Write step
+}
+
+func vfC20ConcurrentCheck(c vfC20Concurrent) error {
+	enc := vfEncodings[c.Enc]
+	n := len(c.Data)
+	// decompressors: recycle the way the pool does (Close, Reset(NoBody)), then all are handed a message at once
+	decs := make([]connect.Decompressor, n)
+	comps := make([]connect.Compressor, n)
+	for i := 0; i < n; i++ {
+		var err error
+		if decs[i], err = GetDecompressor(enc); err != nil {
+			return nil
+		}
+		if comps[i], err = GetCompressor(enc); err != nil {
+			return nil
+		}
+		for w := 0; w < c.Warmups[i]; w++ {
+			warm := []byte(fmt.Sprintf("warm-up message %d of instance %d", w, i))
+			if err := decs[i].Reset(bytes.NewReader(vfIndepEncode(enc, warm))); err != nil {
+				return verifkit.Violf("concurrent-warmup", "%v instance %d: Reset for warm-up %d failed: %v", enc, i, w, err)
+			}
+			if got, err := io.ReadAll(decs[i]); err != nil || !bytes.Equal(got, warm) {
+				return verifkit.Violf("concurrent-warmup", "%v instance %d: warm-up %d decoded wrongly (err %v)", enc, i, w, err)
+			}
+			_ = decs[i].Close()
+			_ = decs[i].Reset(http.NoBody)
+			var sink bytes.Buffer
+			comps[i].Reset(&sink)
+			_, _ = comps[i].Write(warm)
+			_ = comps[i].Close()
+			comps[i].Reset(io.Discard)
+		}
+	}
+	payloads := make([][]byte, n)
+	outs := make([]bytes.Buffer, n) // decoded so far
+	wire := make([]bytes.Buffer, n) // compressed so far
+	written := make([]int, n)       // bytes handed to the compressor so far
+	decDone := make([]bool, n)
+	for i := 0; i < n; i++ {
+		payloads[i] = c.Data[i].bytes()
+		if err := decs[i].Reset(bytes.NewReader(vfIndepEncode(enc, payloads[i]))); err != nil {
+			return verifkit.Violf("concurrent-reset", "%v instance %d of %d: Reset onto a valid stream failed while the others are in use: %v", enc, i, n, err)
+		}
+		comps[i].Reset(&wire[i])
+	}
+	step := c.Step
+	if step < 1 {
+		step = 1
+	}
+	buf := make([]byte, step)
+	for k, left := 0, 2*n; left > 0 && k < 1<<20; k++ {
+		i := c.Schedule[k%len(c.Schedule)] % n
+		if !decDone[i] {
+			m, err := decs[i].Read(buf)
+			outs[i].Write(buf[:m])
+			if err == io.EOF {
+				decDone[i] = true
+				left--
+			} else if err != nil {
+				return verifkit.Violf("concurrent-decode-error", "%v instance %d of %d: a valid stream failed to decode while other instances were in use: %v", enc, i, n, err)
+			} else if outs[i].Len() > len(payloads[i])+step {
+				return verifkit.Violf("concurrent-decode-mixed", "%v instance %d of %d: decoded more bytes than its message has", enc, i, n)
+			}
+		}
+		if written[i] >= 0 {
+			if written[i] < len(payloads[i]) {
+				end := written[i] + step
+				if end > len(payloads[i]) {
+					end = len(payloads[i])
+				}
+				if _, err := comps[i].Write(payloads[i][written[i]:end]); err != nil {
+					return verifkit.Violf("concurrent-compress-error", "%v instance %d: Write failed: %v", enc, i, err)
+				}
+				written[i] = end
+			} else {
+				if err := comps[i].Close(); err != nil {
+					return verifkit.Violf("concurrent-compress-error", "%v instance %d: Close failed: %v", enc, i, err)
+				}
+				written[i] = -1
+				left--
+			}
+		}
+	}
+	for i := 0; i < n; i++ {
+		if !bytes.Equal(outs[i].Bytes(), payloads[i]) {
+			return verifkit.Violf("concurrent-decode-mixed", "%v instance %d of %d (recycled %d times before): decoded %d bytes that differ from its %d-byte message - instances in use at the same time share state", enc, i, n, c.Warmups[i], outs[i].Len(), len(payloads[i]))
+		}
+		back, err := vfIndepDecode(enc, wire[i].Bytes())
+		if err != nil || !bytes.Equal(back, payloads[i]) {
+			return verifkit.Violf("concurrent-compress-mixed", "%v instance %d of %d: its output does not decode to its %d-byte message (err %v)", enc, i, n, len(payloads[i]), err)
+		}
+		_ = decs[i].Close()
+	}
+	return nil
+}
+
+func TestVerifC20Concurrent(t *testing.T) {
+	verifkit.Run(t, "C20Concurrent", verifkit.Spec[vfC20Concurrent]{
+		Gen: func(t *rapid.T) vfC20Concurrent {
+			c := vfC20Concurrent{Enc: rapid.IntRange(0, 5).Draw(t, "enc"), Step: rapid.SampledFrom([]int{1, 7, 64, 1000, 70000}).Draw(t, "step")}
+			for i, n := 0, rapid.IntRange(2, 3).Draw(t, "instances"); i < n; i++ {
+				c.Warmups = append(c.Warmups, rapid.IntRange(0, 2).Draw(t, "warmups"))
+				d := vfGenData(t)
+				if d.Kind == "big" {
+					d.Size = 65537 + d.Size%5000
+				}
+				c.Data = append(c.Data, d)
+			}
+			for i := 0; i < 9; i++ {
+				c.Schedule = append(c.Schedule, rapid.IntRange(0, 2).Draw(t, "sched"))
+			}
+			c.Schedule = append(c.Schedule, 0, 1, 2) // every instance gets its turn
+			return c
+		},
+		Check: vfC20ConcurrentCheck,
+		Classify: func(c vfC20Concurrent) ([]string, bool) {
+			recycled := 0
+			for _, w := range c.Warmups {
+				if w > 0 {
+					recycled++
+				}
+			}
+			return []string{vfEncodings[c.Enc].String(), fmt.Sprintf("recycled-instances:%d", recycled)}, recycled >= 1
+		},
+	})
+}
